@@ -130,3 +130,77 @@ impl PageSet {
             .collect()
     }
 }
+
+/// Verification hook (compiled only with `--cfg nomt_verif`): the real `PageSet` (working map, warmed-up map,
+/// `freeze`) over pages that carry a 64-bit tag; the origin is `Persisted(Known(bucket))`.
+#[cfg(nomt_verif)]
+pub(crate) mod verif {
+    use super::{super::page_walker::PageSet as _, BucketInfo, PageId, PageOrigin, PagePool, PageSet};
+    use crate::{bitbox::BucketIndex, page_cache::PageMut};
+
+    pub struct PageSetSim {
+        set: Option<PageSet>,
+        pool: PagePool,
+    }
+
+    impl PageSetSim {
+        pub fn new() -> Self {
+            let pool = PagePool::new();
+            PageSetSim {
+                set: Some(PageSet::new(pool.clone(), None)),
+                pool,
+            }
+        }
+
+        /// `freeze` the current set; the next one starts empty, with (`warm`) or without the frozen one as its
+        /// warmed-up map.
+        pub fn restart(&mut self, warm: bool) {
+            // UNWRAP: always `Some` between calls.
+            let frozen = self.set.take().unwrap().freeze();
+            self.set = Some(PageSet::new(
+                self.pool.clone(),
+                if warm { Some(frozen) } else { None },
+            ));
+        }
+
+        pub fn insert(&mut self, page_id: PageId, tag: u64, bucket: u64) {
+            let mut fat = self.pool.alloc_fat_page();
+            fat[..].fill(0);
+            fat[0..8].copy_from_slice(&tag.to_le_bytes());
+            let page = PageMut::pristine_with_data(fat).freeze();
+            // UNWRAP: always `Some` between calls.
+            self.set.as_mut().unwrap().insert(
+                page_id,
+                page,
+                PageOrigin::Persisted(BucketInfo::Known(BucketIndex::verif_new(bucket))),
+            );
+        }
+
+        pub fn get(&self, page_id: &PageId) -> Option<(u64, Option<u64>)> {
+            // UNWRAP: always `Some` between calls.
+            self.set.as_ref().unwrap().get(page_id).map(|(p, o)| {
+                let mut b = [0u8; 8];
+                b.copy_from_slice(&p.page_data()[0..8]);
+                let bucket = match o.bucket_info() {
+                    Some(BucketInfo::Known(b)) => Some(b.verif_index()),
+                    _ => None,
+                };
+                (u64::from_le_bytes(b), bucket)
+            })
+        }
+
+        pub fn contains(&self, page_id: &PageId) -> bool {
+            // UNWRAP: always `Some` between calls.
+            self.set.as_ref().unwrap().contains(page_id)
+        }
+
+        /// `fresh(page_id)`: the label and the elided-children bitfield of the page it hands out.
+        pub fn fresh_label(&self, page_id: &PageId) -> ([u8; 32], u64) {
+            // UNWRAP: always `Some` between calls.
+            let page = self.set.as_ref().unwrap().fresh(page_id).freeze();
+            let mut label = [0u8; 32];
+            label.copy_from_slice(&page.page_data()[crate::io::PAGE_SIZE - 32..]);
+            (label, page.elided_children().to_bytes().iter().fold(0u64, |a, b| (a << 8) | *b as u64))
+        }
+    }
+}
